@@ -241,6 +241,51 @@ def ieval(e, env):
     raise NoEval(str(e)[:60])
 
 
+def compile_expr(e, keys):
+    """Turn an expression tree into a Python function of the values of `keys` (same semantics as ieval, but ~50x
+    faster for large grids).  Raises NoEval for anything the evaluator does not know."""
+    names = {k: f"v{i}" for i, k in enumerate(keys)}
+
+    def gen(e):
+        e = flow.strip_casts(e)
+        if e in names:
+            return names[e]
+        if e[0] == "const" and isinstance(e[1], int):
+            return repr(e[1])
+        if e[0] == "proj":
+            return gen(e[1])
+        if e[0] == "call":
+            fn = e[1]
+            if re.search(r"(NonZero::<T>::get|NonZeroU32PowerOfTwo::get|to_non_zero_usize|TryFrom::try_from|TryInto::try_into|From::from|Into::into|Result::<T, E>::(unwrap|expect)|Option::<T>::(unwrap|expect))$", fn):
+                return gen(e[2][0])
+            if fn.endswith("non_zero_prev_power_of_two"):
+                return f"_pp2({gen(e[2][0])})"
+            if fn.endswith("::next_power_of_two"):
+                return f"_np2({gen(e[2][0])})"
+            if fn.endswith("::div_ceil"):
+                return f"(-(-({gen(e[2][0])}) // ({gen(e[2][1])})))"
+            if re.search(r"cmp::min$|Ord::min$", fn):
+                return "min(" + ", ".join(gen(x) for x in e[2]) + ")"
+            if re.search(r"cmp::max$|Ord::max$", fn):
+                return "max(" + ", ".join(gen(x) for x in e[2]) + ")"
+            raise NoEval(fn)
+        if e[0] == "bin":
+            op = e[1].replace("WithOverflow", "")
+            sym = {"Add": "+", "Sub": "-", "Mul": "*", "Div": "//", "Rem": "%", "Shl": "<<", "Shr": ">>", "BitAnd": "&", "BitOr": "|", "BitXor": "^"}.get(op)
+            if sym is None:
+                raise NoEval(op)
+            return f"(({gen(e[2])}) {sym} ({gen(e[3])}))"
+        raise NoEval(str(e)[:60])
+
+    def _np2(x):
+        p = 1
+        while p < x:
+            p *= 2
+        return p
+    src = "lambda " + ", ".join(names[k] for k in keys) + ": " + gen(e)
+    return eval(src, {"_pp2": _prev_pow2, "_np2": _np2, "min": min, "max": max})
+
+
 def align(ctx, facts):
     ctx.rule("ALIGN: SendChannelConfig::new_with - for every (active = 2^k, record_size, configured read size) of a grid, the extracted total_capacity and both read_size arms satisfy total_capacity = active*record_size, read_size >= 1, read_size a multiple of record_size and total_capacity % read_size == 0 (a misaligned read size stalls the last partial batch); the two runtime assertions that turn a violation into a panic are present")
     b = facts.bodies.get("helpers::gateway::send::SendChannelConfig::new_with")
